@@ -195,6 +195,17 @@ func (w *world) runIn(c *Case, viaExecutable bool) inObs {
 		if err != nil {
 			resp = map[string]interface{}{"errors": ggql.FormErrorsResult(err)}
 		} else {
+			// what the client wrote is what THIS call coerces: the same parsed executable is first resolved with
+			// no variables and with the same variables (nothing of those calls may stay behind in the literals)
+			_, _ = w.root.ResolveExecutable(exe, "", nil)
+			if len(c.Given) > 0 {
+				warm := map[string]interface{}{}
+				for k, v := range c.Given {
+					warm[k] = buildIn(v)
+				}
+				_, _ = w.root.ResolveExecutable(exe, "", warm)
+			}
+			w.calls, w.got, w.gotHas = 0, nil, false
 			var res map[string]interface{}
 			res, err = w.root.ResolveExecutable(exe, "", vars)
 			if res == nil {
